@@ -92,7 +92,11 @@ class Loop(Node):
         else:
             arg = (kwargs,)
         super().__setitem__(slice(len(self), len(self)), arg)
-        self._invalidate_duration(body_duration_increment=self[-1].duration)
+        if len(self) == 1 and self._waveform is not None:
+            # self was a leaf with a waveform: the cached body duration was the waveform's, which no longer counts
+            self._invalidate_duration()
+        else:
+            self._invalidate_duration(body_duration_increment=self[-1].duration)
 
     def _invalidate_duration(self, body_duration_increment=None):
         if self._cached_body_duration is not None:
